@@ -8,7 +8,9 @@ RULE = ("trees of 1-6 files (depth<=3, hostile names), sizes from boundary class
         "16384 and pl in {16K,32K,64K,128K}; distinct by (pl, per-file (size%B,size%pl,"
         "size//pl)); non-trivial when >=2 files and a piece straddles a file boundary, or a "
         "file is empty, or the last piece is short; thorough adds the exhaustive two-file "
-        "grid of size classes")
+        "grid of size classes; plus 'the same path made into a torrent twice by one process, the "
+        "tree changed in between' (files added / removed / resized / replaced below the first "
+        "level and at it; fixed shapes and random earlier states), judged on the later metafile")
 
 
 def observe(tf, root, pl, via_cli, out):
@@ -88,7 +90,12 @@ def nontrivial(files, pl, single):
     return False
 
 
-def run_case(run, tf, drv, files, pl, single, via_cli, tag, spelling=None, out_inside=None):
+def run_case(run, tf, drv, files, pl, single, via_cli, tag, spelling=None, out_inside=None, earlier=None):
+    """`earlier`: the tree that was at the same path when the same process made a torrent of it
+    before (same arguments); it then changed into `files`. The metafile judged is the later one."""
+    if earlier is not None:
+        assert not single
+        out_inside = False
     if via_cli == "default-out" and spelling:
         via_cli = False         # (the default output is relative to the working directory: absolute roots only)
     if via_cli == "default-out":
@@ -99,8 +106,11 @@ def run_case(run, tf, drv, files, pl, single, via_cli, tag, spelling=None, out_i
     case = {"files": [(rel, b.token()) for rel, b in files], "pl": pl, "single": single,
             "via_cli": via_cli, "gen": tag, "spelling": spelling,
             "out_inside": bool(out_inside),
-            "second_run": tag in ("random", "replay-second") and (len(files) + pl // 16384 + sum(len(b) for _, b in files)) % 4 == 1,
+            "second_run": earlier is None and tag in ("random", "replay-second") and (len(files) + pl // 16384 + sum(len(b) for _, b in files)) % 4 == 1,
             "links": __import__("harness.props.creation", fromlist=["links"]).links(files)}
+    if earlier is not None:
+        case["earlier"] = [(rel, b.token()) for rel, b in earlier]
+        case["earlier_emptydirs"] = list(getattr(earlier, "emptydirs", ()))
     with sandbox("c01") as box:
         root = os.path.join(box, "payload")
         if single:
@@ -108,7 +118,7 @@ def run_case(run, tf, drv, files, pl, single, via_cli, tag, spelling=None, out_i
             write_tree(box, [(files[0][0].split("/")[-1], files[0][1].bytes())])
         else:
             from harness.props import creation as _cr
-            _cr.materialize(box, files, False)
+            _cr.materialize(box, files if earlier is None else earlier, False)
         out = os.path.join(box, "out.torrent")
         if case.get("out_inside"):
             out = os.path.join(root, "made-here.torrent")      # does not exist while the tree is read
@@ -136,6 +146,11 @@ def run_case(run, tf, drv, files, pl, single, via_cli, tag, spelling=None, out_i
                     with open(path0, "wb") as fd:
                         fd.write(blob0.bytes())
                     os.utime(path0, ns=(st.st_atime_ns, st.st_mtime_ns))
+            if earlier is not None:
+                # the same process made a torrent of this path before; the tree has changed since
+                # (mostly below the first level): the new metafile describes the tree as it is now
+                observe(tf, spelled, pl, via_cli, out)
+                _cr.change_tree(root, earlier, files)
             obs = observe(tf, spelled, pl, via_cli, out)
         except Exception as exc:  # the property promises a metafile for every such tree
             run.fail("impl-vs-spec", case, {"raised": repr(exc)})
@@ -159,10 +174,21 @@ def run_case(run, tf, drv, files, pl, single, via_cli, tag, spelling=None, out_i
         name = files[0][0].split("/")[-1] if single else "payload"
         cr.ask_createfull(drv, ("createfull", case, obs["raw"]), "v1", files, pl, single, name,
                           obs["raw"])
-    run.case(shape_key(files, pl, single), nontrivial(files, pl, single),
+    run.case(shape_key(files, pl, single) + ([["earlier"] + sorted(case["earlier"])] if earlier is not None else []),
+             nontrivial(files, pl, single),
              sample=case, classes=[f"files={len(files)}", f"pl={pl}",
                                    "single" if single else "dir",
-                                   "cli" if via_cli is True else "lib" if not via_cli else "lib-" + via_cli])
+                                   "cli" if via_cli is True else "lib" if not via_cli else "lib-" + via_cli]
+             + (["recreated-after-change"] if earlier is not None else []))
+
+
+def earlier_of(c):
+    """The earlier tree of a recorded case (None when the case has none)."""
+    if c.get("earlier") is None:
+        return None
+    from harness.props import creation as _cr
+    return _cr.files_of_case({"files": c["earlier"],
+                              "links": {d + "/": None for d in c.get("earlier_emptydirs", ())}})
 
 
 def _short(v):
@@ -214,7 +240,7 @@ def run(tier, seed, replay=None):
         files = _cr.files_of_case(c)
         run_case(run, tf, drv, files, c["pl"], c["single"], c["via_cli"],
                  "replay-second" if c.get("second_run") else "replay",
-                 spelling=c.get("spelling"), out_inside=bool(c.get("out_inside")))
+                 spelling=c.get("spelling"), out_inside=bool(c.get("out_inside")), earlier=earlier_of(c))
     else:
         from harness.props import creation as _crc
         for files, pl, single in _crc.corner_cases():
@@ -225,7 +251,14 @@ def run(tier, seed, replay=None):
         for via in (False, True):
             for sp in ("dot", "dotslash", None):
                 run_case(run, tf, drv, tilde, 16384, False, via, "corner", spelling=sp, out_inside=False)
+        # the same path is made into a torrent twice by this process and the tree changes in
+        # between, mostly below the first level (fixed shapes; random ones in the loop below)
+        for pl in (16384, 32768):
+            for label, before, after in _crc.changed_tree_shapes(pl):
+                for via, sp in ((False, None), (True, None), (False, "dot")) if pl == 16384 else (("again1", None), (True, "dotslash")):
+                    run_case(run, tf, drv, after, pl, False, via, "changed:" + label, spelling=sp, earlier=before)
         n = 160 if tier == "quick" else 1500
+        import random as _random
         for i in range(n):
             pl = gen.pick_pl(rng)
             single = rng.random() < 0.15
@@ -238,6 +271,14 @@ def run(tier, seed, replay=None):
                      rng.choice([True] * 6 + [False] * 11 + ["again1", "again1", "again2", "default-out", "default-out"]),
                      "random",
                      spelling=rng.choice([None, None, None, "trail", "dot", "dotslash", "dbl", "updown"]))
+            # (own generator: the stream of the cases above stays what it was)
+            rng2 = _random.Random(f"{seed}/changed/{i}")
+            if not single and rng2.random() < 0.25:
+                before = _crc.earlier_version(rng2, files)
+                if before is not None:
+                    run_case(run, tf, drv, files, pl, False, rng2.choice([False, False, True, "again1"]),
+                             "changed:random", spelling=rng2.choice([None, None, "trail", "dot", "dotslash", "dbl", "updown"]),
+                             earlier=before)
         big_piece(run)
         if tier == "thorough":
             classes = gen.size_classes(B, B)
@@ -255,7 +296,7 @@ def run(tier, seed, replay=None):
         from harness.props import creation as _cr
         files = _cr.files_of_case(c)
         run_case(probe, tf, Driver(), files, c["pl"], c["single"], c["via_cli"], "shrink",
-                 spelling=c.get("spelling"), out_inside=bool(c.get("out_inside")))
+                 spelling=c.get("spelling"), out_inside=bool(c.get("out_inside")), earlier=earlier_of(c))
         return any(f.kind == "impl-vs-spec" for f in probe.failures)
     run.shrinker = still_fails
     for (case, impl_pieces, spec_pieces), _, out in cr.settle_createfull(run, drv.run()):
